@@ -4,6 +4,8 @@
 // Exact arithmetic (vq::Q); the complex adapter runs in double on dyadic values.
 #include "vq_io.hpp"
 #include <complex>
+#include <deque>
+#include <iterator>
 #include <amgcl/adapter/crs_tuple.hpp>
 #include <amgcl/adapter/zero_copy.hpp>
 #include <amgcl/adapter/crs_builder.hpp>
@@ -76,6 +78,68 @@ template <class I> static std::string tuple_op(Tok &t, bool ranges) {
         out = dims(A) + " " + dump_rows(A) + " " + vq::show_crs(C) + " " + spmv_str(A, x);
     }
     return out;
+}
+// tuple of NON-CONTIGUOUS random-access ranges with real references: a strided view into an interleaved buffer
+// (element k lives at buf[2*k]) and std::deque.  A range with addressable elements need not be contiguous.
+template <class T> struct StridedRange {
+    std::vector<T> buf;   // payload at even positions, filler at odd positions
+    StridedRange(const std::vector<T> &v, const T &filler) { buf.reserve(2 * v.size()); for (size_t k = 0; k < v.size(); ++k) { buf.push_back(v[k]); buf.push_back(filler); } }
+    struct iterator {
+        typedef std::random_access_iterator_tag iterator_category; typedef T value_type; typedef ptrdiff_t difference_type;
+        typedef const T* pointer; typedef const T& reference;
+        const T *p;
+        iterator(const T *p = 0) : p(p) {}
+        reference operator*() const { return *p; }
+        pointer operator->() const { return p; }
+        reference operator[](difference_type k) const { return p[2 * k]; }
+        iterator& operator++() { p += 2; return *this; }
+        iterator operator++(int) { iterator r = *this; p += 2; return r; }
+        iterator& operator--() { p -= 2; return *this; }
+        iterator operator--(int) { iterator r = *this; p -= 2; return r; }
+        iterator& operator+=(difference_type k) { p += 2 * k; return *this; }
+        iterator& operator-=(difference_type k) { p -= 2 * k; return *this; }
+        iterator operator+(difference_type k) const { return iterator(p + 2 * k); }
+        iterator operator-(difference_type k) const { return iterator(p - 2 * k); }
+        difference_type operator-(const iterator &o) const { return (p - o.p) / 2; }
+        bool operator==(const iterator &o) const { return p == o.p; }
+        bool operator!=(const iterator &o) const { return p != o.p; }
+        bool operator<(const iterator &o) const { return p < o.p; }
+        bool operator>(const iterator &o) const { return p > o.p; }
+        bool operator<=(const iterator &o) const { return p <= o.p; }
+        bool operator>=(const iterator &o) const { return p >= o.p; }
+    };
+    typedef iterator const_iterator; typedef T value_type;
+    iterator begin() const { return iterator(buf.data()); }
+    iterator end() const { return iterator(buf.data() + buf.size()); }
+    size_t size() const { return buf.size() / 2; }
+    const T& operator[](size_t k) const { return buf[2 * k]; }
+};
+template <class T> typename StridedRange<T>::iterator operator+(ptrdiff_t k, const typename StridedRange<T>::iterator &i) { return i + k; }
+template <class I> static std::string tuple_noncontig(const std::string &kind, Tok &t) {
+    Arr<I> a(t); std::vector<Q> x = t.vec();
+    if (a.m != a.n) throw std::invalid_argument("square");
+    if (kind == "strided") {
+        StridedRange<I> p(a.ptr, (I)0), c(a.col, (I)(a.n > 0 ? a.n - 1 : 0)); StridedRange<Q> v(a.val, Q(99));
+        auto A = std::tie(a.n, p, c, v);
+        be::crs<Q> C(A);
+        return dims(A) + " " + dump_rows(A) + " " + vq::show_crs(C) + " " + spmv_str(A, x);
+    }
+    if (kind == "deque") {
+        std::deque<I> p(a.ptr.begin(), a.ptr.end()), c(a.col.begin(), a.col.end()); std::deque<Q> v(a.val.begin(), a.val.end());
+        auto A = std::tie(a.n, p, c, v);
+        be::crs<Q> C(A);
+        return dims(A) + " " + dump_rows(A) + " " + vq::show_crs(C) + " " + spmv_str(A, x);
+    }
+    throw std::invalid_argument("kind");
+}
+AD_OP(tuple_nc) {
+    std::string kind = t.s(), it = t.s();
+    if (it == "int")       return tuple_noncontig<int>(kind, t);
+    if (it == "long")      return tuple_noncontig<long>(kind, t);
+    if (it == "unsigned")  return tuple_noncontig<unsigned>(kind, t);
+    if (it == "size_t")    return tuple_noncontig<size_t>(kind, t);
+    if (it == "ptrdiff_t") return tuple_noncontig<ptrdiff_t>(kind, t);
+    throw std::invalid_argument("itype");
 }
 AD_OP(tuple) {
     std::string it = t.s();
